@@ -3,6 +3,7 @@
 (quick tier unless meta.json says otherwise), undo the patch, report whether the change was detected."""
 import json, os, subprocess, sys, time
 ROOT = os.path.dirname(os.path.dirname(os.path.abspath(__file__)))
+REPO = os.environ.get("SEED_REPO", "/repo")  # a dev copy of /verif whose harness go.mod points at a scratch worktree sets this
 
 def sh(cmd, **kw):
     return subprocess.run(cmd, shell=True, capture_output=True, text=True, **kw)
@@ -12,10 +13,10 @@ def main(ids):
     for sid in ids:
         d = os.path.join(ROOT, "seeded", sid)
         meta = json.load(open(os.path.join(d, "meta.json")))
-        st = sh("git -C /repo status --porcelain")
+        st = sh(f"git -C {REPO} status --porcelain")
         if st.stdout.strip():
-            print("refusing: /repo has uncommitted changes"); return 2
-        ap = sh(f"git -C /repo apply {d}/patch.diff")
+            print(f"refusing: {REPO} has uncommitted changes"); return 2
+        ap = sh(f"git -C {REPO} apply {d}/patch.diff")
         if ap.returncode != 0:
             print(f"{sid}: patch does not apply: {ap.stderr.strip()[:300]}"); rc = 2; continue
         try:
@@ -33,7 +34,7 @@ def main(ids):
                 for k, v in results.items():
                     print("   ", k, v["tail"])
         finally:
-            sh("git -C /repo checkout -- . && git -C /repo clean -fdq")
+            sh(f"git -C {REPO} checkout -- . && git -C {REPO} clean -fdq")
     return rc
 
 sys.exit(main(sys.argv[1:]))
